@@ -153,6 +153,14 @@ def run(prog: Program) -> Results:
                     v = getattr(d, "value", None) if isinstance(d, (ast.Assign, ast.AnnAssign)) else None
                     if isinstance(v, ast.Attribute) and v.attr == "value":
                         relevant = True  # the receiver is itself the value of a binding: an expression of unknown kind
+            if relevant and recv != "self":
+                # the store is reached only where the receiver is a reference (`isinstance(x, Identifier)`): `.value` of an
+                # Identifier is its assign-through setter, not the payload of a literal
+                e_ident = edges_establishing(cfg, lambda a_, t_, _r=recv: t_ is True and isinstance(a_, ast.Call) and callee(a_) == "isinstance"
+                                             and len(a_.args) == 2 and norm(a_.args[0]) == _r and "Identifier" in norm(a_.args[1]))
+                at_ = cfg.containing(tgt)
+                if e_ident and at_ is not None and cfg.all_paths_pass(at_, cut_edges=e_ident):
+                    relevant = False
             if not relevant:
                 continue
             r2.instances += 1
